@@ -115,6 +115,37 @@ func TestC24WitnessZstdEmpty(t *testing.T) {
 	}, "zstd-empty-input", "empty-nil")
 }
 
+// Zstd: the frame header is outside the content checksum and the checksum is
+// optional via a header flag: clearing Content_Checksum_flag (byte 4 bit 2)
+// makes the decoder stop verifying, and (absent a frame content size, which the
+// encoder omits for payloads ≤ 1 KiB) a second flipped bit in a block header
+// then changes the data silently — e.g. raw block size 3 → 7 returns the four
+// checksum bytes as data.
+func TestC24WitnessZstdFlag(t *testing.T) {
+	gen := func(t *rapid.T) C24Scenario {
+		s := C24Scenario{Alg: 4, Payload: PayloadSpec{Kind: "raw", Raw: rapid.SliceOfN(rapid.Byte(), 1, 40).Draw(t, "raw")}}
+		s.Damage = []Corruption{{Kind: "flip", Off: 4, Bits: []int{2}}}
+		// second damage: 1–2 bits of the block header's size field (byte 6, bits 3..7) or anywhere
+		if rapid.IntRange(0, 3).Draw(t, "where") != 3 {
+			n := rapid.IntRange(1, 2).Draw(t, "nbits")
+			var bits []int
+			for i := 0; i < n; i++ {
+				bits = append(bits, rapid.IntRange(3, 7).Draw(t, "sizebit"))
+			}
+			s.Damage = append(s.Damage, Corruption{Kind: "flip", Off: 6, Bits: bits})
+		} else {
+			// Min 5: never wraps back onto the descriptor byte (its size-flag bits would
+			// declare a multi-GiB content size — another matter, and slow under load)
+			s.Damage = append(s.Damage, Corruption{Kind: "flip", Min: 5, Off: rapid.IntRange(0, 60).Draw(t, "off"), Bits: []int{rapid.IntRange(0, 7).Draw(t, "bit")}})
+		}
+		return s
+	}
+	pbt.Witness(t, pbt.Spec[C24Scenario]{
+		ID: "C24", Facet: "witness-zstd-flag", Rule: "Zstd only, 1–40 byte payloads: Content_Checksum flag (byte 4 bit 2) cleared plus 1–2 flipped bits in the first block header's size field or one flipped bit elsewhere",
+		Quick: 400, Thorough: 4000, Gen: gen, Run: runC24,
+	}, "zstd-header-flag-unprotected", "wrong-data", "empty-nil")
+}
+
 // Zstd: decompressZstd builds a STREAMING decoder over the input (zstd.NewReader(r)),
 // never reads or closes it, and then calls DecodeAll on the same Decoder. For
 // multi-block input the stream goroutines stay parked forever holding block
@@ -234,6 +265,9 @@ func c24FromFuzz(cfg c24Cfg, data []byte) C24Scenario {
 		s.Damage = append(s.Damage, c)
 	}
 	s.Damage = append(s.Damage, tail...)
+	if s.Alg == 4 && cfg.zstdKeepFlag && len(s.Damage) > 0 {
+		s.Damage = append(s.Damage, zstdKeepChecksumFlag)
+	}
 	if len(rest) > 1<<20 {
 		rest = rest[:1<<20]
 	}
